@@ -281,12 +281,7 @@ class Runtime:
                 c = core.And(*([i.eq(x, y) for x, y in zip(pa, a)] + [i.eq(pk[n], k[n]) for n in k]))
                 if c is True or (c is not False and i.ctx.branch(core.lift_bool(c))):
                     return res
-            try:
-                res = i.call(val, list(a), dict(k))
-            except BaseException as _e:
-                import os as _o, sys as _s
-                _o.environ.get("PYVC_DBG") and print("DBGLRU", type(_e), _e, file=_s.stderr)
-                raise
+            res = i.call(val, list(a), dict(k))
             if isinstance(res, (_Obj, _PDict, list, dict, set)):
                 store.append((list(a), dict(k), res))
             return res
